@@ -722,12 +722,14 @@ Definition map_http (code : N) : N :=
 Definition http_status_of_error (e : encoding) (s : status) (msg : bytes) : N :=
   let out := render_error e s msg in
   match out with
-  | 123 :: _ =>
-      let head := firstn (N.to_nat render_http_sniff_window) out in
-      if negb (has_window status_word head (length head)) then 200
-      else if N.of_nat (length out) <? render_http_parse_full_below then map_http (status_code s)
-      else 200      (* only the first bytes of a long body are parsed: never a complete document *)
-  | _ => 200
+  | c :: _ =>
+      if negb (c =? 123) then 200
+      else
+        let head := firstn (N.to_nat render_http_sniff_window) out in
+        if negb (has_window status_word head (length head)) then 200
+        else if N.of_nat (length out) <? render_http_parse_full_below then map_http (status_code s)
+        else 200      (* only the first bytes of a long body are parsed: never a complete document *)
+  | [] => 200
   end.
 
 (** the HTTP statuses of the three encodings of one error differ (the known class of the
@@ -735,4 +737,5 @@ Definition http_status_of_error (e : encoding) (s : status) (msg : bytes) : N :=
 Definition http_status_same (s : status) (msg : bytes) : bool :=
   (http_status_of_error EJson s msg =? http_status_of_error EText s msg) &&
   (http_status_of_error EJson s msg =? http_status_of_error EArrow s msg).
-Definition http_status_known (s : status) (msg : bytes) : bool := negb (http_status_same s msg).
+(** KnownClass of the error clause (HttpStatusSniffedFromBody): any status other than 200 *)
+Definition http_known (s : status) : bool := match s with StOk => false | _ => true end.
